@@ -31,6 +31,7 @@ type stats struct {
 	Files            int      `json:"files"`
 	StoreSites       int      `json:"store_sites"`
 	MapStoreSites    int      `json:"map_store_sites"`
+	MapReadSites     int      `json:"map_read_sites"`
 	GlobalSites      int      `json:"global_access_sites"`
 	MapRanges        int      `json:"map_ranges"`
 	SyncImports      int      `json:"sync_imports_rewritten"`
@@ -453,6 +454,51 @@ func (r *rewriter) globalReads(n ast.Node, exclude map[*ast.Ident]bool) []ast.St
 	return out
 }
 
+// mapReads returns RM hooks for every lookup m[k] in n (n is evaluated before any nested block).
+// Only lookups whose map expression is side-effect free are hooked; the store target of an
+// assignment is not a read.
+func (r *rewriter) mapReads(n ast.Node, stmt ast.Stmt) []ast.Stmt {
+	var out []ast.Stmt
+	lhs := map[ast.Expr]bool{}
+	if a, ok := stmt.(*ast.AssignStmt); ok {
+		for _, l := range a.Lhs {
+			lhs[unparen(l)] = true
+		}
+	}
+	seen := map[string]bool{}
+	ast.Inspect(n, func(x ast.Node) bool {
+		switch y := x.(type) {
+		case *ast.FuncLit:
+			return false
+		case *ast.BlockStmt:
+			if x != n {
+				return false
+			}
+		case *ast.IndexExpr:
+			if lhs[y] {
+				return true
+			}
+			t := r.pi.info.TypeOf(y.X)
+			if t == nil {
+				return true
+			}
+			if _, isMap := t.Underlying().(*types.Map); !isMap || !pure(y.X) {
+				return true
+			}
+			key := exprString(y.X)
+			if seen[key] {
+				return true
+			}
+			seen[key] = true
+			site := newSite(y.Pos(), "map lookup: "+exprString(y))
+			st.MapReadSites++
+			out = append(out, call(sel("verifrt", "RM"), &ast.CallExpr{Fun: sel("verifrt", "MapID"), Args: []ast.Expr{y.X}}, intLit(site)))
+		}
+		return true
+	})
+	return out
+}
+
 // headOf returns the part of a statement that is evaluated before any nested block.
 func headNodes(s ast.Stmt) []ast.Node {
 	switch x := s.(type) {
@@ -547,6 +593,7 @@ func (r *rewriter) rewriteList(list []ast.Stmt) []ast.Stmt {
 		}
 		for _, h := range headNodes(target) {
 			pre = append(pre, r.globalReads(h, exclude)...)
+			pre = append(pre, r.mapReads(h, target)...)
 		}
 		// init clauses run exactly once before anything else of the statement: their stores are hooked before the statement;
 		// a for-loop post statement that stores through a pointer is left alone and reported
